@@ -33,6 +33,12 @@ instance (o : Int) (ops : List TbOp) (j : Int) : Decidable (mem o ops j) := by u
 /-- one past the last stored bit -/
 def tbEnd (tb : TailBitmap) : Int := tb.offset + 64 * tb.words.length
 
+/-- running a history and then a continuation is running the concatenation (so the last clause of
+    `C15_offset` says: the offset after any prefix of a history is ≤ the offset after the whole history) -/
+theorem tbRun_append (thr : Int) (tb : TailBitmap) (ops ops' : List TbOp) :
+    tbRun thr (tbRun thr tb ops) ops' = tbRun thr tb (ops ++ ops') := by
+  simp only [tbRun, List.foldl_append]
+
 theorem mem_snoc (o : Int) (ops : List TbOp) (op : TbOp) (j : Int) :
     mem o (ops ++ [op]) j ↔ (mem o ops j ∨ op = TbOp.set j) := by
   simp only [mem, List.mem_append, List.mem_singleton]
